@@ -1,6 +1,6 @@
 use super::swift_utils::{
-    fit_amount_length, format_swift_amount_min_decimals, parse_amount, parse_date_yymmdd,
-    parse_swift_chars,
+    ensure_ascii, fit_amount_length, format_swift_amount_min_decimals, parse_amount,
+    parse_date_yymmdd, parse_swift_chars,
 };
 use crate::errors::ParseError;
 use crate::traits::SwiftField;
@@ -55,6 +55,7 @@ impl SwiftField for Field61 {
     where
         Self: Sized,
     {
+        ensure_ascii(input, "Field 61")?;
         // Format: 6!n[4!n]2a[1!a]15d1!a3!c[16x][//16x][34x]
         if input.len() < 15 {
             return Err(ParseError::InvalidFormat {
